@@ -4,7 +4,7 @@ CONSTANTS
   NPages = 3
   PgMin = 1
   BothBad = FALSE
-  MaxBad = 4
+  MaxBad = 2
   NParts = 16
   Part = 0
 INVARIANTS OneShotIsRecovered CommitExact NothingFromInvalid NoPageAboveCommit ChunksCompose GrowthComposes HazardIsReal
